@@ -333,6 +333,9 @@ def run(prog, rep):
                     "`each output loads as a current-version document with the content of its source`: odmlconvert / odmltordf convert outdated "
                     "files with VersionConverter")
     from ..report import import_verdicts
+    import_verdicts(prog, rep, "C02", ("SIB-3",), "PROBE-2",
+                    "the probe odml.load(file, 'YAML' / 'JSON') of the tools reads with the plain yaml.safe_load / json.load, as the version converter "
+                    "does right after it: the converter relies on what the probe registered on yaml.SafeLoader (the python/unicode constructor)")
     import_verdicts(prog, rep, "C16", ("ERR-1", "ROOT-2"), "PROBE-1",
                     "odmlconvert and odmltordf decide with odml.load whether a file is already current: the readers refuse another format "
                     "version by raising in strict and in lenient mode alike; a version error that the lenient reader only records makes the "
